@@ -236,7 +236,14 @@ OnOut(o, ln) ==
 
 Keep(oc, ona, e) == (~oc \/ e.c) /\ (~ona \/ IsTunnel(e))
 OnFiltered(o, ln) ==
-  SFlag(o, ln.evs = SelectSeq(o.full, LAMBDA e : Keep(ln.oc, ln.ona, e)), "NotProjection", "")
+  LET o1 == SFlag(o, ln.evs = SelectSeq(o.full, LAMBDA e : Keep(ln.oc, ln.ona, e)), "NotProjection", "")
+      \* C14 for every combination of output filters: without machines the filtered
+      \* run shows exactly the filtered share of the input trace
+      want == SelectSeq(Expected(o.cf), LAMBDA e : ~ln.oc \/ e.c)
+  IN SFlag(o1, NoMachines(o.cf) =>
+                 /\ SameBag(Tunnels(ln.evs), want) /\ Sorted(ln.evs)
+                 /\ \A i \in 1..Len(ln.evs) : ~ln.evs[i].p /\ (ln.oc => ln.evs[i].c) /\ (ln.ona => IsTunnel(ln.evs[i])),
+           "TraceNotReproduced", "filtered")
 
 OnSimple(o, ln) ==
   SFlag(o, IF ln.ona
